@@ -3,14 +3,15 @@
    nat, positive, N, Z stay Coq datatypes.  No Extract Constant directives.
    Run coqc with the ocaml/ directory as working directory (files land in the cwd). *)
 From Coq Require Import Extraction ExtrOcamlBasic.
-From TV Require Import Base Index AP Iter Mem Spec Guards Run.
+From TV Require Import Base Index AP Iter Mult Mem Spec Guards Run.
 Extraction Language OCaml.
 Extraction "model.ml"
   size dot rank_rm rank_cm unrank coords inboxb
-  calc_strides calc_strides_cm ltoi itol unsafe_permute is_monotonic shape_eq
+  is_rowvec is_colvec is_vector calc_strides calc_strides_cm ltoi itol unsafe_permute is_monotonic shape_eq
   slice_details at_index window_at window_setat
   ap_S shape_S ap_T broadcast_strides
-  new_iter iter_next iter_reset iter_set_dir iter_all miter_next_validity miter_seek
+  new_iter iter_next iter_reset iter_set_dir iter_all miter_next_validity miter_seek flat_next_valid flat_next_invalid
+  new_mult mult_next mult_reset hash_ints
   get_t is_materializable requires_iterator is_cm is_nc is_tr
   guard_op flag_soundb
   step_model step_spec obs_model obs_spec ntens_model ntens_spec empty_store empty_sstate.
